@@ -1063,6 +1063,11 @@ class Interp:
                 return self._spec_form(n, f)
         if isinstance(n.func, ast.Name) and n.func.id == "super" and not n.args:
             return SuperProxy(self, f)
+        if isinstance(n.func, ast.Name) and n.func.id == "super" and len(n.args) == 2 and "super" not in f.locals:
+            # explicit form super(C, obj_or_cls): look-up starts behind C in the MRO of the receiver
+            c, recv = self.ev(n.args[0], f), self.ev(n.args[1], f)
+            if isinstance(c, type):
+                return SuperProxy(self, f, defcls=c, recv=recv)
         fn: Any = self.ev(n.func, f)
         args: list = []
         for a in n.args:
@@ -1460,13 +1465,13 @@ class SymRange:
 
 
 class SuperProxy:
-    def __init__(self, interp: Interp, f: Frame):
+    def __init__(self, interp: Interp, f: Frame, defcls: Optional[type] = None, recv: Any = None):
         self.interp = interp
         self.frame = f
-        self.recv = f.locals.get("self", f.locals.get("cls"))
-        if f.defcls is None:
+        self.recv = recv if defcls is not None else f.locals.get("self", f.locals.get("cls"))
+        if defcls is None and f.defcls is None:
             raise Unsupported("super() without a defining class")
-        self.defcls = f.defcls
+        self.defcls = defcls if defcls is not None else f.defcls
 
     def lookup(self, name: str) -> Any:
         recv = self.recv
